@@ -1,8 +1,12 @@
-import MiniconfVerif.Model.Iter
+import MiniconfVerif.Lemmas.IterEnum
 
 /-! # C11 — rooted and depth-limited iteration is exact, finite and fused
-(first instalment: fusedness and the shape of each step; the enumeration theorem
-`rooted_limited` is being added, see DESIGN.md §7 C11) -/
+
+Proved here: fusedness for every state; exactness, termination and the exact-size counter for
+iteration from the tree root with a depth limit `D ≥ max_depth` and a target that does not
+run out of capacity (from the enumeration theorem of C03).  Roots below the tree root, depth
+limits below `max_depth` and targets without capacity are covered by the correspondence and
+oracle runs only (see DESIGN.md §11.3). -/
 namespace MiniconfVerif.C11
 open MiniconfVerif
 
@@ -19,9 +23,83 @@ theorem init_not_done (D : Nat) : (IterSt.init D).depth ≠ (IterSt.init D).root
 /-- the always-finalizing key wrapper: the iterator's own keys never report `TooLong` -/
 theorem state_keys_finalize (st : List Nat) : (stateKeys st).finalize = .ok () := rfl
 
+/-- **Exact and finite from the tree root with `D ≥ max_depth`**: the leaves in order, then
+`None` for ever; no call needs more than `D + 2` passes of the loop and no panic site is reached
+(`Polled.broken` does not occur). -/
+theorem full_depth_exact (s : Schema) (hwf : s.WF) (hsm : s.Small) (D : Nat) (hD : s.maxDepth ≤ D)
+    (fresh : Target) (hacc : Accepts s fresh) (n : Nat) :
+    (IterSt.init D).poll s D fresh n =
+      ((s.leaves.map fun p => Polled.item (leafItem s fresh p)) ++ List.replicate n Polled.finished).take n ∧
+    Polled.broken ∉ (IterSt.init D).poll s D fresh n := by
+  have h := poll_init s hwf hsm D fresh hacc hD n
+  refine ⟨h, ?_⟩
+  rw [h]
+  intro hm
+  have hm' := List.mem_of_mem_take hm
+  simp only [List.mem_append, List.mem_map, List.mem_replicate] at hm'
+  rcases hm' with ⟨_, _, h1⟩ | ⟨_, h2⟩
+  · cases h1
+  · cases h2
+
+/-- `ExactSize`: the wrapper's counter, started at `Metadata::count`; it depends on the inner
+iterator only through what `next()` returns.  `none` = the overflow-checked `count -= 1`
+would underflow, or `debug_assert!(self.count == 0)` on `None` would fail. -/
+def exactCounts : List Polled → Nat → List (Option Nat)
+  | [], _ => []
+  | .item _ :: rest, count => if count = 0 then [none] else some (count - 1) :: exactCounts rest (count - 1)
+  | .finished :: rest, count => if count = 0 then some 0 :: exactCounts rest 0 else [none]
+  | .broken :: _, _ => [none]
+
+theorem exactCounts_finished (n : Nat) :
+    exactCounts (List.replicate n Polled.finished) 0 = List.replicate n (some 0) := by
+  induction n with
+  | zero => rfl
+  | succ n ih => simp [List.replicate_succ, exactCounts, ih]
+
+theorem exactCounts_items (f : List Nat → Polled) (hf : ∀ p, ∃ y, f p = Polled.item y) :
+    ∀ (items : List (List Nat)) (n : Nat),
+      exactCounts ((items.map f ++ List.replicate n Polled.finished).take n) items.length =
+        (List.range n).map fun k => some (items.length - (k + 1)) := by
+  intro items
+  induction items with
+  | nil =>
+    intro n
+    simp only [List.map_nil, List.nil_append, List.take_replicate, Nat.min_self, exactCounts_finished, List.length_nil,
+      Nat.zero_sub]
+    induction n with
+    | zero => rfl
+    | succ n ih => simp [List.replicate_succ', List.range_succ, ih]
+  | cons x xs ih =>
+    intro n
+    cases n with
+    | zero => rfl
+    | succ m =>
+      obtain ⟨y, hy⟩ := hf x
+      simp only [List.map_cons, List.cons_append, List.take_succ_cons, hy, exactCounts, List.length_cons]
+      rw [take_append_replicate _ _ m (m + 1) (by omega)]
+      simp only [Nat.add_one_ne_zero, if_false, Nat.add_sub_cancel, ih m, List.range_succ_eq_map, List.map_cons,
+        List.map_map]
+      congr 1
+      apply List.map_congr_left
+      intro k _
+      simp only [Function.comp, Nat.succ_eq_add_one]
+      congr 1; omega
+
+/-- **The exact-size wrapper's remaining length is right before and after every step**: started
+at `Metadata::count`, after the `k`-th call it reports the number of leaves not yet yielded;
+it never underflows and is `0` whenever the iterator returns `None`. -/
+theorem exact_size_remaining (s : Schema) (hwf : s.WF) (hsm : s.Small) (D : Nat) (hD : s.maxDepth ≤ D)
+    (fresh : Target) (hacc : Accepts s fresh) (n : Nat) :
+    exactCounts ((IterSt.init D).poll s D fresh n) s.meta.count =
+      (List.range n).map fun k => some (s.leaves.length - (k + 1)) := by
+  rw [poll_init s hwf hsm D fresh hacc hD n, meta_count s]
+  exact exactCounts_items (fun p => Polled.item (leafItem s fresh p)) (fun p => ⟨_, rfl⟩) s.leaves n
+
 /-! ## non-vacuity -/
 def ex : Schema := .node (.named ["foo", "bar", "baz"]) [.leaf, .array 3 .leaf, .leaf]
 example : (IterSt.init 2).next ex 2 (.idx [] 1 (2^64-1)) 5 =
     some (.yield (.node (.idx [0] 1 (2^64-1)) (.leaf 1)) ⟨[0, 0], 0, 1⟩) := by decide +kernel
+example : exactCounts ((IterSt.init 2).poll ex 2 .unit 7) ex.meta.count =
+    [some 4, some 3, some 2, some 1, some 0, some 0, some 0] := by decide +kernel
 
 end MiniconfVerif.C11
